@@ -108,7 +108,7 @@ CLAIMED = {
              "released slot/source/target'; stores pre-populated with records produced by Go's own encoding/gob opened by the "
              "real rules service and probed around the watermarks (the Lean gob model decodes the same bytes); export by the "
              "binary -> import into an empty store by the binary -> identical probes on both stores must agree."
-             " Stores of 1100 keys (2200 records); refused-write histories.",
+             " Stores of 1100 keys (2200 records); refused-write histories. Keys whose only attestation is the genesis one (0,0).",
         note="The Lean gob model covers streams Go's encoder produces for the two legacy structs. Trusted: Lean kernel + 3 axioms; correspondence check.",
         ref="DESIGN.md §6 C11"),
     "C03": dict(
@@ -142,7 +142,7 @@ CLAIMED = {
              "deadlocks on [0,1] vs [1,0]). Tie: lock-call traces equal the model's (all Locks between PreLock and PostLock, Unlocks "
              "after the rules in reverse, none on a failed duplicate check); concurrent batches with opposite/nested/crossing key orders "
              "and sustained load must complete within a watchdog under several GOMAXPROCS."
-             " Also: stores in which several keys hold undecodable records.",
+             " Also: stores in which several keys hold undecodable records. First use of still-locked accounts by requests that learn the lock state late (stalelock).",
         note="Assumed: a blocked Mutex.Lock proceeds once the mutex is free.",
         ref="DESIGN.md §6 C15"),
     "C12": dict(
